@@ -57,21 +57,23 @@ class AmbigGen:
         constant_ctx = name in ("case", "staticassert")
         if constant_ctx and not is_type and how != "enumerator":
             return None                                    # needs a constant expression
-        op = {"cast-": "-", "cast+": "+", "cast*": "*", "cast&": "&"}.get(form)
+        op = {"cast-": "-", "cast+": "+", "cast*": "*", "cast&": "&", "cast&&": "&&"}.get(form)
         xdecl = ""
         if op:
             if how == "file_typedef_struct":
                 return None                                # a cast to a struct type is not valid C
             if constant_ctx:
-                if op in "*&":
+                if op in ("*", "&", "&&"):
                     return None
                 x = "1"
+            elif op == "&&" and is_type:
+                xdecl = "%s: ; " % x                       # (T) &&x : cast of the address of label x (GNU labels as values)
             elif op == "*" and is_type:
                 xdecl = "int *%s = 0; " % x               # (T) *x : cast of the dereferenced pointer
             else:
                 xdecl = "int %s = 1; " % x
             e = "(%s) %s %s" % (T, op, x)
-            want = "CastExpression" if is_type else {"-": "SubstractExpression", "+": "AddExpression", "*": "MultiplyExpression", "&": "BitwiseANDExpression"}[op]
+            want = "CastExpression" if is_type else {"-": "SubstractExpression", "+": "AddExpression", "*": "MultiplyExpression", "&": "BitwiseANDExpression", "&&": "LogicalANDExpression"}[op]
         elif form == "sizeof":
             e = "sizeof(%s)" % T
             want = "TypeNameAsTypeReference" if is_type else "ExpressionAsTypeReference"
@@ -126,9 +128,52 @@ class AmbigGen:
         a = text.index(s)
         return {"text": text, "span": (a, a + len(s)), "want": want, "form": form, "ctx": name, "how": how, "expr": s}
 
-    def all_cases(self):
+    COLLISIONS = ["member", "tag", "member-use", "label", "member-late", "proto-param", "other-fn-param", "other-fn-local", "other-fn-typedef"]
+
+    def collide(self, c, kind):
+        """the same spellings in ANOTHER name space (6.2.3: members, tags and labels do not hide ordinary identifiers and are not hidden
+        by them): the reading of the ambiguity is unchanged.  Seeded change C09-b needed exactly this (a member spelled like the typedef)."""
+        import re
+        T, x = re.search(r"T\d+", c["expr"]).group(0), (re.search(r"x\d+", c["expr"]) or re.search(r"T\d+", c["expr"])).group(0)
+        text = c["text"]
+        if kind == "member":
+            pre, inbody = "struct Sm_ { int %s; int %s_; int %s; };\n" % (T, T, x) if x != T else "struct Sm_ { int %s; };\n" % T, ""
+        elif kind == "tag":
+            pre, inbody = "struct %s { int m; }; union %s { int m; };\n" % (T, x) if x != T else "struct %s { int m; };\n" % T, ""
+        elif kind == "member-use":
+            pre = "struct Sm_ { int %s; } sm_, *pm_ = &sm_;\n" % T
+            inbody = " sm_.%s = 1; pm_->%s = sm_.%s;" % (T, T, T)
+        elif kind == "label":
+            pre, inbody = "", " goto %s; %s: ;" % (T, T)
+        else:
+            # the same spelling declared in a scope that has ENDED before f: prototype scope, another function's parameters / block
+            pre, inbody = "", ""
+            late = {"member-late": "struct Sl_ { int %s; char %s_; } sl_;\n" % (T, T),
+                    "proto-param": "void pg_(int %s, char %s);\nvoid (*pp_)(double %s);\n" % (T, x + "_" if x == T else x, T),
+                    "other-fn-param": "int h_(int %s) { return %s; }\n" % (T, T),
+                    "other-fn-local": "int h_(void) { int %s = 1; { return %s; } }\n" % (T, T),
+                    "other-fn-typedef": "int h_(void) { typedef int %s; %s v_ = 1; return v_; }\n" % (T, T)}[kind]
+            j = text.index("int f(")
+            text = text[:j] + late + text[j:]
+        i = text.index("{\n", text.index("int f(")) + 2
+        text = pre + text[:i] + inbody + text[i:]
+        a = text.index(c["expr"], text.index("int f("))
+        d = dict(c)
+        d.update(text=text, span=(a, a + len(c["expr"])), how=c["how"] + "+" + kind)
+        return d
+
+    def all_cases(self, every=1):
+        base = self.base_cases()
+        out = list(base)
+        for i, c in enumerate(base):
+            for j, kind in enumerate(self.COLLISIONS):
+                if (i + 2 * j) % every == 0:
+                    out.append(self.collide(c, kind))
+        return out
+
+    def base_cases(self):
         out = []
-        for form in ("cast-", "cast+", "cast*", "cast&", "sizeof", "alignof"):
+        for form in ("cast-", "cast+", "cast*", "cast&", "cast&&", "sizeof", "alignof"):
             for ctx in EXPR_CONTEXTS:
                 for how in self.HOWS:
                     c = self.expr_case(form, ctx, how)
